@@ -1,6 +1,8 @@
 package main
 
 import (
+	"crypto/sha256"
+	"encoding/hex"
 	"go/types"
 	"sort"
 	"strconv"
@@ -21,6 +23,8 @@ type Term struct {
 }
 
 var termTab = map[string]*Term{}
+
+const maxKeyLen = 1 << 16
 
 func mk(op, aux string, typ types.Type, args ...*Term) *Term {
 	var b strings.Builder
@@ -43,6 +47,13 @@ func mk(op, aux string, typ types.Type, args ...*Term) *Term {
 		b.WriteByte(')')
 	}
 	k := b.String()
+	if len(k) > maxKeyLen {
+		// a value that keeps growing (a struct copied into itself round after
+		// round of a loop): the key is replaced by a digest so that the keys of
+		// the terms built on top of it stay bounded; identity is preserved
+		sum := sha256.Sum256([]byte(k))
+		k = op + "[" + aux + "](big#" + hex.EncodeToString(sum[:12]) + ")"
+	}
 	if t, ok := termTab[k]; ok {
 		return t
 	}
@@ -67,6 +78,9 @@ func (t *Term) Key() string { return t.key }
 func (t *Term) String() string {
 	if t == nil {
 		return "<nil>"
+	}
+	if len(t.key) > 4000 || strings.Contains(t.key, "](big#") && strings.HasSuffix(t.key, ")") && strings.HasPrefix(t.key, t.Op+"["+t.Aux+"](big#") {
+		return t.Op + "(…)"
 	}
 	switch t.Op {
 	case "const":
